@@ -1236,3 +1236,14 @@ def strip_not(term):
         neg = not neg
         term = term.a[1]
     return term, neg
+
+
+def value_root(t):
+    """look through enum payload projections ((x as Variant).0, tuple .0) to the term producing the value"""
+    while True:
+        if t.k == "downcast":
+            t = t.a[0]
+        elif t.k == "field" and t.a[1].isdigit() and t.a[0].k in ("downcast", "call", "field"):
+            t = t.a[0]
+        else:
+            return t
